@@ -34,6 +34,8 @@ struct App<const N: usize> {
     binds: Vec<([u8; 4], u16)>,
     sends: Vec<Dgram>,
     controller: bool,
+    /// answers every datagram addressed to one of this machine's own addresses through the session handed to demux
+    replies: bool,
 }
 
 fn payload(id: u32, len: usize) -> Vec<u8> {
@@ -78,7 +80,7 @@ impl<const N: usize> Protocol for App<N> {
                     Err(_) => "open_err",
                 };
                 emit(json!({"ev":"dsend","m":me,"app":N,"id":d.id,"src":d.src.0,"sport":d.src.1,"dst":d.dst.0,"dport":d.dst.1,
-                            "len":d.len,"res":res}));
+                            "len":d.len,"res":res,"reply":false}));
             });
         }
         if self.controller {
@@ -88,7 +90,7 @@ impl<const N: usize> Protocol for App<N> {
         Ok(())
     }
 
-    fn demux(&self, message: Message, _caller: Arc<dyn Session>, control: Control, _machine: Arc<Machine>) -> Result<(), DemuxError> {
+    fn demux(&self, message: Message, caller: Arc<dyn Session>, control: Control, machine: Arc<Machine>) -> Result<(), DemuxError> {
         let ip = control.get::<Ipv4Header>().copied();
         let uh = control.get::<UdpHeader>().copied();
         let bytes = message.to_vec();
@@ -97,6 +99,20 @@ impl<const N: usize> Protocol for App<N> {
         emit(json!({"ev":"demux","m":self.m,"app":N,"id":id,"len":bytes.len(),"intact":intact,
             "src": ip.map(|h| h.source.to_bytes()), "dst": ip.map(|h| h.destination.to_bytes()),
             "sport": uh.map(|h| h.source), "dport": uh.map(|h| h.destination)}));
+        // the answer travels through the session that delivered the datagram: from the endpoint it was addressed to, to
+        // the endpoint it came from (answers, ids above 100, are not answered)
+        if let (true, Some(ip), Some(uh)) = (self.replies && (1..100).contains(&id), ip, uh) {
+            let d = ip.destination.to_bytes();
+            if d[..3] == [10, 0, 0] && (d[3] as usize == 10 * self.m + 1 || d[3] as usize == 10 * self.m + 2) {
+                let rid = id as u32 + 100;
+                let res = match caller.send(Message::new(payload(rid, 5)), machine) {
+                    Ok(()) => "sent",
+                    Err(_) => "send_err",
+                };
+                emit(json!({"ev":"dsend","m":self.m,"app":N,"id":rid,"src":d,"sport":uh.destination,"dst":ip.source.to_bytes(),"dport":uh.source,
+                            "len":5,"res":res,"reply":true}));
+            }
+        }
         Ok(())
     }
 }
@@ -146,16 +162,20 @@ pub fn scenario(run: u64, rng: &mut SmallRng) {
             len = 3;
         }
         have_zero |= len == 0;
-        sends[m][app].push(Dgram {
-            at_us: [0u64, 0, 1000, 3000][rng.gen_range(0..4)],
-            id: id as u32 + 1,
-            src: (own(m, 1), 1000 + id as u16),
-            dst: (dst_addr, ports[rng.gen_range(0..3)]),
-            len,
-        });
+        let dport = ports[rng.gen_range(0..3)];
+        // the source endpoint: usually a port of its own, sometimes the destination port; the sender (or ANOTHER application
+        // of its machine, or nobody) listens on it, so that an answer has an entitled receiver
+        let sport = if rng.gen_range(0..6) == 0 { dport } else { 1000 + id as u16 };
+        match rng.gen_range(0..4) {
+            0 | 1 => binds[m][app].push((own(m, 1), sport)),
+            2 => binds[m][(app + 1) % 3].push((if rng.gen_range(0..2) == 0 { ANY } else { own(m, 1) }, sport)),
+            _ => {}
+        }
+        sends[m][app].push(Dgram { at_us: [0u64, 0, 1000, 3000][rng.gen_range(0..4)], id: id as u32 + 1, src: (own(m, 1), sport), dst: (dst_addr, dport), len });
     }
     let bj: Vec<Value> = (0..nm).map(|m| json!((0..3).map(|a| json!(binds[m][a].iter().map(|b| json!([b.0, b.1])).collect::<Vec<_>>())).collect::<Vec<_>>())).collect();
-    begin_run(run, json!({"arp":arp,"mtu":mtu,"nm":nm,"binds":bj}));
+    let replies = rng.gen_range(0..2) == 0;
+    begin_run(run, json!({"arp":arp,"mtu":mtu,"nm":nm,"binds":bj,"replies":replies}));
     let machines: Vec<Arc<Machine>> = (0..nm)
         .map(|m| {
             let table: IpTable<Recipient> = [("0.0.0.0/0", Recipient::new(0, None))].into_iter().collect();
@@ -163,9 +183,9 @@ pub fn scenario(run: u64, rng: &mut SmallRng) {
                 .with(Udp::new())
                 .with(Ipv4::new(table))
                 .with(Pci::new([net.clone()]))
-                .with(App::<0> { m, binds: binds[m][0].clone(), sends: sends[m][0].clone(), controller: m == 0 })
-                .with(App::<1> { m, binds: binds[m][1].clone(), sends: sends[m][1].clone(), controller: false })
-                .with(App::<2> { m, binds: binds[m][2].clone(), sends: sends[m][2].clone(), controller: false });
+                .with(App::<0> { m, binds: binds[m][0].clone(), sends: sends[m][0].clone(), controller: m == 0, replies })
+                .with(App::<1> { m, binds: binds[m][1].clone(), sends: sends[m][1].clone(), controller: false, replies })
+                .with(App::<2> { m, binds: binds[m][2].clone(), sends: sends[m][2].clone(), controller: false, replies });
             if arp {
                 mach = mach.with(Arp::new());
             }
